@@ -148,6 +148,21 @@ theorem asList_good {now : Int} {s s' : MState} (g : Good now s s') {k : Bytes}
     (h : (vis now s k).isSome = true) : Api.asList s k = Api.asList s' k := by
   rw [asList_eq, asList_eq, valOf_good_vis g h]
 
+theorem writeKey_visible {now : Int} {s : MState} (hs : AList.Sorted s.index) (k k' : Bytes) (mk : Option Val)
+    (h : (vis now s k').isSome = true) : (vis now (writeKey s now k mk).1 k').isSome = true := by
+  obtain ⟨_, a2, _, _⟩ := writeKey_spec s now k mk hs
+  rw [a2]
+  split
+  · rename_i hk; subst hk
+    split
+    · cases hv : vis now s k with
+      | none => rw [hv] at h; cases h
+      | some r => rfl
+    · cases mk with
+      | none => exact h
+      | some v => rfl
+  · exact h
+
 theorem resp_rotate (now : Int) (left : Bool) (src dst : Bytes) :
     Resp now (fun s => Api.rotate left s now src dst) := by
   intro s s' g
@@ -172,6 +187,32 @@ theorem resp_rotate (now : Int) (left : Bool) (src dst : Bytes) :
         | none => exact ⟨rfl, g1⟩
         | some l =>
           simp only
+          -- the additional lookup of the destination (lock / load / count only)
+          obtain ⟨⟨e0, g0⟩, hot0⟩ := writeKey_good g1 dst none
+          have hv0 := writeKey_visible (now := now) g1.1 dst src none hv
+          cases hw0 : writeKey s1 now dst none with
+          | mk s0 dok =>
+          cases hw0' : writeKey s1' now dst none with
+          | mk s0' dok' =>
+          rw [hw0, hw0'] at e0 g0
+          rw [hw0] at hot0 hv0
+          simp only at e0 g0 hot0 hv0 ⊢
+          subst e0
+          have hd : Api.asList s0 dst = Api.asList s0' dst ∨ dok = false := by
+            cases dok with
+            | false => exact Or.inr rfl
+            | true => exact Or.inl (asList_good g0 (hot0 rfl).visible)
+          have hc : (dok && (Api.asList s0 dst).isNone) = (dok && (Api.asList s0' dst).isNone) := by
+            rcases hd with h | h
+            · rw [h]
+            · rw [h]; rfl
+          rw [hc]
+          clear hd hc hot0 hw0 hw0' g1 hv hw hw' hot g
+          revert hv0; revert g0
+          generalize s0 = s1, s0' = s1'
+          intro g1 hv
+          split
+          · exact ⟨rfl, g1⟩
           cases hp : (if left = true then DsList.lpop l 1 else DsList.rpop l 1) with
           | mk l' r =>
             simp only
@@ -235,6 +276,32 @@ theorem resp_smove (now : Int) (src dst member : Bytes) :
         | none => exact ⟨rfl, g1⟩
         | some st =>
           simp only
+          -- the additional lookup of the destination (lock / load / count only)
+          obtain ⟨⟨e0, g0⟩, hot0⟩ := writeKey_good g1 dst none
+          have hv0 := writeKey_visible (now := now) g1.1 dst src none hv
+          cases hw0 : writeKey s1 now dst none with
+          | mk s0 dok =>
+          cases hw0' : writeKey s1' now dst none with
+          | mk s0' dok' =>
+          rw [hw0, hw0'] at e0 g0
+          rw [hw0] at hot0 hv0
+          simp only at e0 g0 hot0 hv0 ⊢
+          subst e0
+          have hd : Api.asSet s0 dst = Api.asSet s0' dst ∨ dok = false := by
+            cases dok with
+            | false => exact Or.inr rfl
+            | true => exact Or.inl (asSet_good g0 (hot0 rfl).visible)
+          have hc : (dok && (Api.asSet s0 dst).isNone) = (dok && (Api.asSet s0' dst).isNone) := by
+            rcases hd with h | h
+            · rw [h]
+            · rw [h]; rfl
+          rw [hc]
+          clear hd hc hot0 hw0 hw0' g1 hv hw hw' hot g
+          revert hv0; revert g0
+          generalize s0 = s1, s0' = s1'
+          intro g1 hv
+          split
+          · exact ⟨rfl, g1⟩
           have g2 := setVal_good g1 src (.set (DsSet.srem st [member]).1) hv
           split
           · exact ⟨rfl, g2⟩
